@@ -41,9 +41,16 @@ def w_of(stmt, consts):
         "fields[TASK_LEVEL_FIELD] = self._nextTaskLevel().as_list()": ".taskLevel",
         "self._logger.write(fields, serializer)": ".write",
     }
+    table.update({
+        "fields[TASK_UUID_FIELD] = self._identification[TASK_UUID_FIELD]": ".taskUuid",
+        "fields[MESSAGE_TYPE_FIELD] = message_type": ".messageType",
+        "logger = fields.pop('__eliot_logger__', self._logger)": ".popLogger",
+        "logger.write(fields, fields.pop('__eliot_serializer__', None))": ".writePop",
+        "if self._serializers is None:\n    serializer = None\nelse:\n    serializer = self._serializers.start": ".serializerStart",
+    })
     if s in table:
         return table[s]
-    for cname in ("SUCCEEDED_STATUS", "FAILED_STATUS"):
+    for cname in ("SUCCEEDED_STATUS", "FAILED_STATUS", "STARTED_STATUS"):
         if s == "fields[ACTION_STATUS_FIELD] = %s" % cname and consts.get(cname) is not None:
             return ".status %s" % q(consts[cname])
     for which in ("success", "failure"):
@@ -56,9 +63,10 @@ def extract(repo):
     repo = Path(repo)
     problems = []
     guard, test, succ, fail, tail, ident = [], "unrecognised", [], [], [], []
+    start_ws, log_ws = [".other \"_start not read\""], [".other \"log not read\""]
     try:
         tree = ast.parse((repo / "eliot" / "_action.py").read_text())
-        consts = {n: const(tree, n) for n in ("SUCCEEDED_STATUS", "FAILED_STATUS")}
+        consts = {n: const(tree, n) for n in ("SUCCEEDED_STATUS", "FAILED_STATUS", "STARTED_STATUS")}
         action = [n for n in tree.body if isinstance(n, ast.ClassDef) and n.name == "Action"][0]
         fns = {m.name: m for m in action.body if isinstance(m, ast.FunctionDef)}
         b = body_of(fns["finish"])
@@ -74,13 +82,15 @@ def extract(repo):
             fail = [w_of(x, consts) for x in b[i].orelse]
             i += 1
         tail = [w_of(x, consts) for x in b[i:]]
+        start_ws = [w_of(x, consts) for x in body_of(fns["_start"])]
+        log_ws = [w_of(x, consts) for x in body_of(fns["log"])]
         # key order of self._identification (a dict display in __init__)
         for n in ast.walk(fns["__init__"]):
             if isinstance(n, ast.Assign) and ast.unparse(n.targets[0]) == "self._identification" and isinstance(n.value, ast.Dict):
                 ident = [ast.unparse(k) for k in n.value.keys]
     except Exception as e:  # noqa
         problems.append("_action.py: %s: %s" % (type(e).__name__, e))
-    for name, ws in (("success", succ), ("failure", fail), ("tail", tail)):
+    for name, ws in (("success", succ), ("failure", fail), ("tail", tail), ("_start", start_ws), ("log", log_ws)):
         problems += ["%s branch: %s" % (name, w) for w in ws if w.startswith(".other")]
     lean = ["import Eliot.Model.FinishSkel",
             "/-! GENERATED by harness/extractors/e14_finish.py: the statements of `Action.finish` in eliot/_action.py, in source order - do not edit. -/",
@@ -90,7 +100,9 @@ def extract(repo):
             "def successBranch : List W := [%s]" % ", ".join(succ), "",
             "def failureBranch : List W := [%s]" % ", ".join(fail), "",
             "/-- after either branch -/", "def tail : List W := [%s]" % ", ".join(tail), "",
+            "/-- `Action._start(fields)`, statement by statement -/", "def startStmts : List W := [%s]" % ", ".join(start_ws), "",
+            "/-- `Action.log(message_type, **fields)`, statement by statement -/", "def logStmts : List W := [%s]" % ", ".join(log_ws), "",
             "/-- keys of `self._identification`, in the order of the dict display in `Action.__init__` -/",
             "def identificationKeys : List String := [%s]" % ", ".join(q(x) for x in ident), "",
             "end Eliot.Generated.Finish", ""]
-    return "Finish.lean", "\n".join(lean), dict(problems=problems, guard=guard, test=test, success=succ, failure=fail, tail=tail, ident=ident)
+    return "Finish.lean", "\n".join(lean), dict(problems=problems, guard=guard, test=test, success=succ, failure=fail, tail=tail, ident=ident, start=start_ws, log=log_ws)
